@@ -766,7 +766,33 @@ func suiteReuse(tier string, seed uint64, model string) *Report {
 		}
 	}
 	rep.Distinct = len(distinct)
-	rep.Rule = "histories of 2-8 calls on one oj.Parser / gen.Parser / sen.Parser (Reuse on and off), oj.Validator, oj/sen Tokenizer (OnlyOne on and off), oj/sen Writer, and through the pooled package-level functions; inputs: valid, multi-document, >4096 bytes, mutated, and 45 inputs that stop in every scratch state (partial literal, number, string, escape, \\u, surrogate, BOM, SEN '+'); buffer / reader / chunked reader / failing reader; options: callbacks of both signatures, a callback or handler that panics (aborted call), result channel, the three NumConvMethods, an invalid option; writers: 8 option presets switched between calls, string / bytes / io.Writer / failing io.Writer / Marshal with the writer, unencodable values; each call compared with the same call on a fresh instance; every returned value re-inspected after each later call with the input buffers overwritten; non-trivial = calls that are not first in their history"
+	// directed: the arguments handed to a SEN token function are the caller's to keep
+	for k := 0; k < 10; k++ {
+		rep.Evaluations++
+		out := safe(func() string {
+			p := &sen.Parser{}
+			p.AddTokenFunc("list", func(args ...any) any { return args })
+			v1, err := p.Parse([]byte(fmt.Sprintf("list(%d 2 3)", k)))
+			if err != nil || Show(v1) != fmt.Sprintf("[i%d i2 i3]", k) {
+				return fmt.Sprintf("Parse gives %s %v", Show(v1), err)
+			}
+			v2, err := p.ParseReader(strings.NewReader(fmt.Sprintf("[list(%d 2 3) 4]", k)))
+			snap := Show(v2)
+			if err != nil || snap != fmt.Sprintf("[[i%d i2 i3] i4]", k) {
+				return fmt.Sprintf("ParseReader gives %s %v", snap, err)
+			}
+			_, _ = p.ParseReader(strings.NewReader("[a b c d e f g]"))
+			_, _ = p.Parse([]byte("[x y z u v w]"))
+			if Show(v1) != fmt.Sprintf("[i%d i2 i3]", k) || Show(v2) != snap {
+				return "a returned value was altered by later calls: " + Show(v1) + " / " + Show(v2)
+			}
+			return "ok"
+		})
+		if out != "ok" {
+			rep.Add(Disagreement{Case: "sen.Parser with a token function that keeps its arguments", Where: "sen.Parser", Kind: "impl-law:returned-value-altered", Impl: out, Spec: "the arguments and the results stay as delivered"})
+		}
+	}
+	rep.Rule = "directed: arguments of a SEN token function kept by the caller; histories of 2-8 calls on one oj.Parser / gen.Parser / sen.Parser (Reuse on and off), oj.Validator, oj/sen Tokenizer (OnlyOne on and off), oj/sen Writer, and through the pooled package-level functions; inputs: valid, multi-document, >4096 bytes, mutated, and 45 inputs that stop in every scratch state (partial literal, number, string, escape, \\u, surrogate, BOM, SEN '+'); buffer / reader / chunked reader / failing reader; options: callbacks of both signatures, a callback or handler that panics (aborted call), result channel, the three NumConvMethods, an invalid option; writers: 8 option presets switched between calls, string / bytes / io.Writer / failing io.Writer / Marshal with the writer, unencodable values; each call compared with the same call on a fresh instance; every returned value re-inspected after each later call with the input buffers overwritten; non-trivial = calls that are not first in their history"
 	return rep
 }
 
